@@ -1,5 +1,7 @@
 //! Defines commodity and its related types.
 
+#[cfg(okane_verif)]
+use crate::verif::std;
 use std::{collections::HashMap, fmt::Display};
 
 use bumpalo::Bump;
